@@ -9,9 +9,12 @@ RULE = ("for valid SPEC-generated exchanges (Valve: info / players / rules units
         "one byte, a bare header), V valid} of length <= r+2 (r in 0..3; quick: "
         "all vectors on a few bases, thorough: on many) is injected at each unit — for units that start with a handshake or challenge "
         "round (Valve and the games on it, GameSpy 3) both at the first exchange of an attempt and at its last one, after the earlier "
-        "ones were answered; and recovering vectors at two or three units of one query at once (each unit has its own r+1 tries); attempts are counted on the wire "
+        "ones were answered; for the families whose replies travel as several datagrams reassembled inside the retried unit (Valve and The Ship: split replies; GameSpy 3: "
+        "data packets; GameSpy 1: parts) also with the reply STOPPING HALF WAY: a silent attempt still receives some — not all — of the datagrams of the reply "
+        "(by position in the vector all but the last / only the first / all but the first in reverse order), a malformed datagram arrives after such a selection; "
+        "bases are added until every kind of unit occurs; and recovering vectors at two or three units of one query at once (each unit has its own r+1 tries); attempts are counted on the wire "
         "(initial request of that unit), the result is compared with the fault-free result. For the families with whole-query "
-        "C10 theorems (Props/C10_<family>_whole.lean: valve, quake, gs2, gs3, jc2m, ffow, gs1 — also with silences after some parts of the reply —, unreal2, mindustry — a socket per attempt —, mcbedrock, mcjava, mclegacy) every injected script is also "
+        "C10 theorems (Props/C10_<family>_whole.lean: valve, quake, gs2, gs3, jc2m, ffow, gs1 — valve, gs3 and gs1 also with silences / malformed datagrams after some datagrams of the reply —, unreal2, mindustry — a socket per attempt —, mcbedrock, mcjava, mclegacy) every injected script is also "
         "rebuilt by the model driver from the SPEC's plan (entry <family>plan: Spec.faultyScript / faultyFaults): the two "
         "lines must be identical, the hypotheses of the theorem are evaluated (theorem-domain count), and result and the "
         "whole list of datagrams sent (with failed flags) are compared with the SPEC's faultyExpected / faultySends. "
@@ -69,14 +72,24 @@ def run(rep, tier, seed, replay=None):
             if new_units:
                 bases.append(b)
                 have |= new_units
-        units_desc.append(f"{fam}: units {fmod.c10_units(bases[0]) if bases else []}")
+        units_desc.append(f"{fam}: units {sorted(have)} over {len(bases)} bases")
+        # units whose scripts are long (a reply of several datagrams delivered again and again): at most so many bases each
+        cap = getattr(fmod, "C10_BASE_CAP", {})
+        capped = {}
         for bi, b in enumerate(bases):
+            units_here = []
+            for unit in fmod.c10_units(b):
+                if unit in cap:
+                    if capped.get(unit, 0) >= cap[unit]:
+                        continue
+                    capped[unit] = capped.get(unit, 0) + 1
+                units_here.append(unit)
             for r in range(4):
                 vs = vectors(r)
                 if tier == "quick":
                     keep = [v for v in vs if "M" not in v]
                     vs = keep + rnd.sample([v for v in vs if "M" in v], min(12, len([v for v in vs if "M" in v])))
-                for unit in fmod.c10_units(b):
+                for unit in units_here:
                     for v in vs:
                         cid = f"{b.id}u{unit}r{r}{v}"
                         cases.append(fmod.c10_build(b, unit, v, r, cid))
@@ -176,6 +189,7 @@ def run(rep, tier, seed, replay=None):
         attempts = fmod.c10_attempts(b, unit, vlib.sends_of(impl), want_res == "CLEAN")
         got = vlib.result_of(impl)
         rep.count(f"vector-class:{want_res.split(' ')[0]}")
+        rep.count(f"unit:{b.fam}:{unit}")
         if cid in spec:
             line, tags = spec[cid]
             if line != built[cid]:
